@@ -200,6 +200,7 @@ class Agg:
         self.violations = []     # (violation, case, seed)
         self.run_wall = 0.0
         self.records = {}
+        self.event_digests = {}
 
     def add(self, res, want_sample):
         self.evaluations += 1
@@ -215,6 +216,8 @@ class Agg:
                 s.add(v)
         if res.get("record") is not None and res.get("idx") is not None:
             self.records[res["idx"]] = res["record"]
+        if res.get("idx") is not None:
+            self.event_digests[res["idx"]] = [res.get("event_digest", res.get("digest")), res.get("digest")]
         if res.get("harness_error"):
             self.harness_errors.append({"seed": res.get("seed"), "idx": res.get("idx"), "error": res["harness_error"]})
         for v in res.get("violations", []):
@@ -267,7 +270,7 @@ def write_evidence(check, tier, verif_seed, agg, wall, n_new, n_known, extra=Non
 # --------------------------------------------------------------------------
 # parent side
 # --------------------------------------------------------------------------
-def run_batch(check, tier, verif_seed, procs=None, runs=None, wall=None):
+def run_batch(check, tier, verif_seed, procs=None, runs=None, wall=None, digests_path=None):
     cfg = check.TIERS[tier]
     runs = runs if runs is not None else cfg["runs"]
     wall_budget = wall if wall is not None else cfg["wall"]
@@ -276,7 +279,7 @@ def run_batch(check, tier, verif_seed, procs=None, runs=None, wall=None):
     check._procs_used = procs
     t0 = time.time()
     ctx = mp.get_context("fork")
-    if hasattr(check, "warmup"):
+    if hasattr(check, "warmup") and not digests_path:
         check.warmup(tier, verif_seed)
     workers = [Worker(ctx, check, verif_seed, tier) for _ in range(procs)]
     agg = Agg()
@@ -331,6 +334,16 @@ def run_batch(check, tier, verif_seed, procs=None, runs=None, wall=None):
                 workers[workers.index(w)] = nw
                 feed(nw)
 
+    if digests_path:
+        for w in workers:
+            w.stop()
+        with open(digests_path, "w") as f:
+            json.dump({"digests": {str(k): v for k, v in sorted(agg.event_digests.items())},
+                       "violations": len(agg.violations), "harness_errors": agg.harness_errors,
+                       "hashseed": os.environ.get("PYTHONHASHSEED"), "procs": procs}, f)
+        print(f"[{check.ID}] wrote {len(agg.event_digests)} event digests to {digests_path}")
+        return 2 if agg.harness_errors else 0
+
     # -- post-processing: known findings, shrinking, replay files -----------
     known = load_known(check.ID)
     known_seen = {}
@@ -359,7 +372,11 @@ def run_batch(check, tier, verif_seed, procs=None, runs=None, wall=None):
         os.makedirs(REPLAY_DIR, exist_ok=True)
         # distinct kinds first, shrink the first few
         seen_kinds = {}
+        seen_pairs = set()
         for viol, case, seed in new:
+            if (viol["kind"], seed) in seen_pairs:
+                continue
+            seen_pairs.add((viol["kind"], seed))
             seen_kinds.setdefault(viol["kind"], []).append((viol, case, seed))
         todo = []
         for kind, lst in seen_kinds.items():
@@ -384,7 +401,7 @@ def run_batch(check, tier, verif_seed, procs=None, runs=None, wall=None):
                         idle = [x for x in workers]
                 except Exception:
                     pass
-            path = os.path.join(REPLAY_DIR, f"{check.ID}-{seed}.json")
+            path = os.path.join(REPLAY_DIR, f"{check.ID}-{seed}-{viol['kind']}.json")
             with open(path, "w") as f:
                 json.dump({"property": check.ID, "seed": seed, "verif_seed": verif_seed, "tier": tier,
                            "violation": viol, "shrunk": shrunk, "shrink_tries": tries, "case": case,
@@ -466,9 +483,11 @@ def main(check, argv=None):
     ap.add_argument("--wall", type=float)
     ap.add_argument("--procs", type=int)
     ap.add_argument("--seed", type=int)
+    ap.add_argument("--digests", help="selftest mode: write per-run event digests to this file, no evidence")
     args = ap.parse_args(argv)
     faulthandler.enable()
     verif_seed = args.seed if args.seed is not None else int(os.environ.get("VERIF_SEED", "0") or 0)
     if args.replay:
         return run_replay(check, args.replay)
-    return run_batch(check, args.tier, verif_seed, procs=args.procs, runs=args.runs, wall=args.wall)
+    return run_batch(check, args.tier, verif_seed, procs=args.procs, runs=args.runs, wall=args.wall,
+                     digests_path=args.digests)
